@@ -3185,6 +3185,10 @@ func (r *Resolver) lookupV6Nss(ctx context.Context, q dns.Question, authservers 
 			}
 		}
 
+		if !takeNSAddrLookup(ctx) {
+			zlog.Debug("Name server address lookups exhausted for this request", "query", dnsutil.FormatQuestion(q), "ns", name)
+			return
+		}
 		addrs, err := r.lookupNSAddrV6(ctx, name, cd)
 		nsipv6 := make(map[string][]netip.Addr)
 
@@ -4088,6 +4092,7 @@ func (r *Resolver) processDelegation(ctx context.Context, rs *resolveState, resp
 			if middleware.HasClientECS(ctx) {
 				detachedBase = middleware.MarkClientECS(detachedBase)
 			}
+			detachedBase = inheritNSAddrBudget(detachedBase, ctx)
 			go func() { //nolint:gosec // G118 - intentionally detached and bounded by the timeout below
 				defer func() {
 					if r.v6LookupSlots != nil {
